@@ -285,8 +285,11 @@ Definition dec_str (n : N) : string := nat_str (N.to_nat n).
 Definition ndims_of (cs : list call) : N := match last_pix cs with Some (_, _, nd) => nd | None => 0%N end.
 
 (* C12: structure *)
+Definition keys_of_names (l : list bname) : list bkey :=
+  flat_map (fun n => match key_of_name n with Some k => [k] | None => [] end) l.
+
 Definition check_c12 (order : list bname) (bound : bound_kind) (c : case) : string :=
-  let model := encode_file order (c_endian c) (c_env c) bound (c_title c) (c_calls c) (c_chunk c) in
+  let model := encode_file (keys_of_names order) (c_endian c) (c_env c) bound (c_title c) (c_calls c) (c_chunk c) in
   let m := if list_eqb model (c_file c) then ""
            else "model-bytes@" ++ dec_str (first_diff 0 model (c_file c)) in
   let f := match check_file (c_file c) with
